@@ -11,6 +11,7 @@ func extraTables(v *bytes.Buffer, repo string, kmd *pkgFiles) {
 	writeTable(v, "raw_html_sinks", "(function, class, expression) of every conversion to template.HTML in cmd/keymasterd; class: escaped | base64 | literal | raw", 3, rawHTMLSinks(kmd))
 	c20Tables(v, repo, kmd)
 	c19Tables(v, repo, kmd)
+	writeTable(v, "shared_accesses", "(function, map, kind, class, mutex held) of every access to localAuthData / vipPushCookie / pendingOauth2 / totpLocalRateLimit in non-test files of cmd/keymasterd (locks.go)", 5, sharedAccesses(kmd))
 }
 
 // ------------------------------------------------------------------ C18 raw HTML sinks
